@@ -170,4 +170,6 @@ def concretize(model, sym, ty, max_dim=64):
         return [concretize(model, sym.get(i), None) for i in range(n)]
     if isinstance(sym, CSet):
         raise Outside("set-valued input replay")
+    if type(sym).__name__ == "LazyClass":
+        return f"<class {sym.name}>"  # a classmethod's cls: rtcheck binds the real class itself
     raise Outside(f"concretize {type(sym).__name__}")
